@@ -237,7 +237,12 @@ def run_screen_model(case):
 def run_screen_engine(case, cfg, path):
     from flipjump.interpreter import fjm_run
     C.set_engine_env(cfg)
-    dev, scr = screen.make_real_screen_device(case['screen']['device'])
+    frames_dir = None
+    if case['screen'].get('png'):
+        import shutil
+        frames_dir = C.scratch_dir() / 'frames'
+        shutil.rmtree(frames_dir, ignore_errors=True)
+    dev, scr = screen.make_real_screen_device(case['screen']['device'], frames_dir)
     try:
         st = fjm_run.run(path, io_device=dev, last_ops_debugging_list_length=cfg.get('last_ops'),
                          profile=(cfg['engine'] == 'featured'), flat_max_words=cfg.get('flat_max_words'))
@@ -249,6 +254,21 @@ def run_screen_engine(case, cfg, path):
         outcome = ('raise', type(e).__name__)
         ops = None
     hashes_ok = len(scr.frame_hashes) == len(scr.frames) == scr.frame_count
+    if frames_dir is not None and hashes_ok:
+        # the headless backend writes one PNG per presented frame: each must decode to palette[pixel index]
+        files = sorted(frames_dir.glob('frame_*.png')) if frames_dir.exists() else []
+        if len(files) != len(scr.frames):
+            hashes_ok = False
+        for f, (pix, pal) in zip(files, scr.frames):
+            try:
+                w_, h_, rgb = screen.decode_png_rgb(f.read_bytes())
+            except Exception:
+                hashes_ok = False
+                break
+            want = [tuple(pal[i]) if i < len(pal) else (0, 0, 0) for i in pix]
+            if rgb != want:
+                hashes_ok = False
+                break
     return {'outcome': outcome, 'ops': ops, 'bits': scr.bits, 'frames': scr.frames, 'hashes_ok': hashes_ok}
 
 
@@ -270,7 +290,7 @@ def eval_screen(case):
                     e, o = {'len': len(e), 'last': C._j(e[-1:])}, {'len': len(o), 'last': C._j(o[-1:])}
                 break
         if clause is None and not obs['hashes_ok']:
-            clause, e, o = 'frame-hash-log', 'one hash per presented frame', 'mismatch'
+            clause, e, o = 'frame-hash-log', 'one hash and one correctly encoded PNG per presented frame', 'mismatch'
         if clause:
             violations.append({'clause': clause, 'config': cfg, 'config_name': enginesim.cfg_name(cfg),
                                'expected': C._j(e), 'observed': C._j(o), 'exp_outcome': C._j(exp['outcome']),
@@ -288,7 +308,7 @@ def run(case):
             states.add(f"{enginesim.cfg_class(cfg)}|screen|{sc['device']}|{exp['outcome'][1]}|frames{min(len(exp['frames']), 3)}")
         probes = {'screen_case': 1, 'screen_frames': len(exp['frames']), f"w{case['w']}": 1,
                   'screen_malformed_rejected': 1 if exp['outcome'][0] == 'raise' else 0,
-                  'screen_device_' + sc['device']: 1}
+                  'screen_device_' + sc['device']: 1, 'screen_png_frames_checked': len(exp['frames']) if sc.get('png') else 0}
         return {'violations': violations, 'probes': probes, 'faults': {}, 'states': states, 'steps': steps,
                 'nontrivial': len(exp['frames']) > 0 or exp['outcome'][0] == 'raise',
                 'digest': kernel.digest_of([case, [[v['clause'], v['config_name']] for v in violations],
